@@ -59,7 +59,7 @@ func (c18) Runs(tier string) int {
 	if tier == "thorough" {
 		return 60000
 	}
-	return 1500
+	return 3000
 }
 func (c18) RequiredProbes(string) []string {
 	return []string{"pair_agrees", "pair_error_agrees", "acl_roundtrip", "multipart_via_proxy"}
